@@ -71,6 +71,7 @@ theorem exec_ownEq (P : Prog) (k : Nat) (s s' : State) (t : Nat) (i : Instr) (re
     (hbig : ∀ j, P.n ≤ j → (s.th j).status = .notCreated)
     (hnc : ∀ j, (s.th j).status = .notCreated → (s.th j).code = [])
     (hm : Memb P s) (hp : PjaInv P s)
+    (hcopy : ∀ k, Instr.joinM k ∈ (s.th t).code → (s.th k).copyId = some k)
     (h : exec P s t i rest = some s') (hE : OwnEq P k s) : OwnEq P k s' := by
   have mjt := hm.mj t; have hut := hm.hu t
   rw [hc] at mjt hut
@@ -96,7 +97,7 @@ theorem exec_ownEq (P : Prog) (k : Nat) (s s' : State) (t : Nat) (i : Instr) (re
         simp [hc, occ, occI, oPlus, Ne.symm hjt]
     · refine ownEq_upd1 P k s _ t _ hE ht rfl ?_
       simp [hc, occ, occI, oPlus]
-  case create k' pin nf =>
+  case create k' pin nf nm =>
     simp only [exec] at h
     split at h
     · simp only [Option.some.injEq] at h; subst h
@@ -116,7 +117,7 @@ theorem exec_ownEq (P : Prog) (k : Nat) (s s' : State) (t : Nat) (i : Instr) (re
         have hk0 := hnc k' hs0
         simp [hc, hk0, hs0, occ, occI, oPlus]
   case joinM k' =>
-    simp only [exec] at h
+    simp only [exec, hcopy k' (by rw [hc]; simp), if_true] at h
     split at h
     · rename_i hg
       obtain ⟨hs0, htk⟩ := hg
@@ -173,7 +174,7 @@ theorem ownEq_congr (P : Prog) (k : Nat) (s s' : State) (hE : OwnEq P k s)
   exact hE
 
 theorem ownEq_thr (P : Prog) (hm0 : P.managed 0 = false) (k : Nat) (s s' : State) (t : Nat) (h : step P s t = some s')
-    (hc : CountInv P s) (hp : PjaInv P s) (hE : OwnEq P k s) : OwnEq P k s' := by
+    (hc : CountInv P s) (hp : PjaInv P s) (hr : RefInv s) (hE : OwnEq P k s) : OwnEq P k s' := by
   have hlt : ∀ j, (s.th j).status ≠ .notCreated → j < P.n := by
     intro j hj
     by_cases hjn : j < P.n
@@ -212,7 +213,8 @@ theorem ownEq_thr (P : Prog) (hm0 : P.managed 0 = false) (k : Nat) (s s' : State
       simp [hs, oPlus, this]
     · simp [hs, oPlus]
   · have hne : (s.th t).status ≠ .notCreated := by rcases hs with hs | hs | hs <;> rw [hs] <;> simp
-    exact exec_ownEq P k s s' t i rest hcd (hlt t hne) hc.big (fun j hj => hc.nocode j (Or.inl hj)) hc.memb hp he hE
+    exact exec_ownEq P k s s' t i rest hcd (hlt t hne) hc.big (fun j hj => hc.nocode j (Or.inl hj)) hc.memb hp
+      (fun k hm => hr.copy k (hr.refs.mj t k hm)) he hE
 
 theorem ownEq_init (P : Prog) (k : Nat) : OwnEq P k (init P) := by
   unfold OwnEq
@@ -231,7 +233,7 @@ theorem own_reachable (P : Prog) (hn : 0 < P.n) (hm0 : P.managed 0 = false) (s :
     have hp := pjaInv_reachable P s hr
     intro k
     cases l with
-    | thr t => exact ownEq_thr P hm0 k s s' t hs hc hp (ih k)
+    | thr t => exact ownEq_thr P hm0 k s s' t hs hc hp (refInv_reachable P s hr) (ih k)
     | tick d => simp only [stepL, Option.some.injEq] at hs; subst hs; exact ownEq_congr P k s _ (ih k) (fun j => ⟨rfl, rfl⟩) rfl
     | spur t =>
       simp only [stepL] at hs
